@@ -304,6 +304,15 @@ def r01_2(ctx: Ctx) -> None:
         ok = dcfg.every_path_to_exit_passes(q.node_for(d, b), [q.node_for(d, p) for p in poss])
         ctx.check(ok, "R01.2", d, b, "carry-over buffer replaced together with its read position",
                   "the decoder's carry-over buffer is replaced but its read position is not reset on that path: the next call skips or re-delivers bytes")
+    # ... and the other way round: the position goes back to 0 only where the buffer it indexes has been replaced (a reset that leaves the old
+    # buffer in place delivers its bytes a second time)
+    for p_ in poss:
+        pn = q.node_for(d, p_)
+        ok = any(dcfg.dominates(q.node_for(d, b), pn) and not any(dcfg.reaches(q.node_for(d, b), q.node_for(d, x)) and dcfg.reaches(q.node_for(d, x), pn) for x in
+                                                                    [n for n in walk(d.node) if isinstance(n, ast.AugAssign) and norm(n.target) == "self._pos"]) for b in bufs)
+        ctx.check(ok, "R01.2", d, p_, "the read position is reset only where the carry-over buffer was replaced",
+                  "`self._pos = 0` on a path that has not replaced `self._buf`: the bytes that were already delivered from the buffer are delivered again by the next call",
+                  construct="decoder pos reset without buffer replacement")
     dec_names = {n.targets[0].id for n in walk(d.node) if isinstance(n, ast.Assign) and isinstance(n.targets[0], ast.Name) and isinstance(n.value, ast.Call)
                  and attr_tail(n.value) == "_decompress"}
     sl = [n for n in walk(d.node) if isinstance(n, ast.Subscript) and isinstance(n.slice, ast.Slice) and norm(n.value) in dec_names]
@@ -531,6 +540,8 @@ def r01_14(ctx: Ctx) -> None:
 
 
 def run(ctx: Ctx) -> None:
+    from . import c07 as _c07o
+    _c07o.r07_21(ctx, rule="R01.16")  # what the encoder is told, the header says
     from . import c04 as _c04s
     _c04s.r04_18(ctx, rule="R01.15")  # the decoder's predicates say what their names say
     r01_14(ctx)
